@@ -3162,6 +3162,7 @@ class WorkflowGraph(object):
         # VV: @tag:FlowIR:Components
 
         component_ids = self._concrete.get_component_identifiers(False)
+        known_component_ids = set(component_ids)
 
         FlowIR = experiment.model.frontends.flowir.FlowIR
 
@@ -3197,7 +3198,14 @@ class WorkflowGraph(object):
                     ref, stage_index, application_dependencies=application_dependencies,
                     special_folders=top_level_folders)
                 if ref_stage is None:
-                    continue
+                    # VV: The reference looks like one to a top-level folder. An instance directory contains folders
+                    #     that the package does not (output, stages, ...): a component of this stage with that name
+                    #     is what the reference means (this is also how it is resolved when the component runs)
+                    if (stage_index, ref_name) in known_component_ids or \
+                            'stage%d.%s' % (stage_index, ref_name) in self._placeholders:
+                        ref_stage = stage_index
+                    else:
+                        continue
 
                 # Create a DataReference instance for this ref assuming its a component ref - filter it later
                 pid = DataReference(ref, stageIndex=stage_index).producerIdentifier
